@@ -225,6 +225,37 @@ func (c *c19) runInProcess(i int, p *idl.Program, src map[string]string, rootPlu
 			continue
 		}
 		reported[sig] = true
+		// is the CLI itself stable for this (content, target)?  if not, the
+		// difference is nondeterminism of the compilation, not of the sequence
+		if r.Exit == 0 {
+			var tg target
+			for _, t := range tgts {
+				if t.Name == s.Target {
+					tg = t
+				}
+			}
+			sdir := filepath.Join(dir, "cli-src-"+s.Rev)
+			var du *difference
+			for again := 0; again < 6 && du == nil; again++ {
+				out := filepath.Join(dir, "cli-again")
+				os.RemoveAll(out)
+				f := c.compile(&job{P: i, Prog: p, Tgt: tg, Set: optSet{}, Recurse: true}, sdir, rootFile, out, out)
+				if f.Exit != -99 {
+					du = compare(r, f)
+				}
+			}
+			if du != nil {
+				run.Add("in_process_differences_attributed_to_nondeterminism", 1)
+				cls := "acceptance"
+				if du.Rel != "" {
+					cls = fileClass(s.Target, du.Rel)
+				}
+				c.pend(&pending{Kind: "nondeterministic", Target: s.Target, Plain: true, Cls: cls,
+					What: fmt.Sprintf("two CLI compilations of the same content with the same arguments differ: %s %s", du.Kind, du.Rel),
+					W:    map[string]interface{}{"program_sources": revs[s.Rev], "root_file": rootFile, "target": s.Target, "args": r.Args, "difference": du.Kind, "file": du.Rel}})
+				continue
+			}
+		}
 		w := map[string]interface{}{
 			"program_sources": src, "root_file": rootFile, "root_file_revision_B": revs["B"][rootFile], "features": p.FeatureList(),
 			"target": s.Target, "step": s.Label, "revision_seen": s.Rev, "calls_so_far": append([]string{}, history...),
@@ -238,7 +269,12 @@ func (c *c19) runInProcess(i int, p *idl.Program, src map[string]string, rootPlu
 			bb, _ := os.ReadFile(filepath.Join(s.Out, filepath.FromSlash(d.Rel)))
 			w["diff"] = firstDiff(string(a), string(bb))
 		}
-		run.Violation(sig, fmt.Sprintf("compiler.Compile called in one process (%s, call %d of the sequence) does not produce what the CLI produces in a fresh process for the same content and options: %s %s", s.Label, len(history), d.Kind, d.Rel), w)
+		cls := "acceptance"
+		if d.Rel != "" {
+			cls = fileClass(s.Target, d.Rel)
+		}
+		c.pend(&pending{Kind: "in-process", Target: s.Target, Cls: cls, Tail: s.Label, W: w,
+			What: fmt.Sprintf("compiler.Compile called in one process (%s, call %d of the sequence) does not produce what the CLI produces in a fresh process for the same content and options: %s %s", s.Label, len(history), d.Kind, d.Rel)})
 	}
 	os.RemoveAll(dir)
 }
